@@ -862,5 +862,44 @@ func runExImport(res *core.CaseResult, c core.CaseDesc) {
 	if m2.Time(nil).Sum(nil) < before {
 		res.Violate("C17/import/backwards", "time went backwards after a mutation on the imported machine", nil)
 	}
+	// further generations: export the imported machine into a fresh one, and
+	// import twice into the same machine
+	prev := m2
+	for gen2 := 2; gen2 <= 2+r.IntN(3); gen2++ {
+		if err := prev.VerifyStates(prev.StateNames()); err != nil {
+			break
+		}
+		e2, _, err := prev.Export()
+		if err != nil {
+			res.Violate("C17/export/error", fmt.Sprintf("Export of generation %d failed: %v", gen2-1, err), nil)
+			return
+		}
+		m3 := am.New(context.Background(), w.spec.Schema(), &am.Opts{Id: "c17ex", DontLogId: true})
+		defer m3.Dispose()
+		res.Evals++
+		if err := m3.Import(e2); err != nil {
+			res.Violate("C17/import/error", fmt.Sprintf("Import of generation %d failed: %v", gen2, err), nil)
+			return
+		}
+		if r.IntN(3) == 0 {
+			// the same snapshot again
+			if err := m3.Import(e2); err != nil {
+				res.Violate("C17/import/error", fmt.Sprintf("second Import of generation %d failed: %v", gen2, err), nil)
+				return
+			}
+		}
+		if m3.MachineTick() != prev.MachineTick()+1 {
+			res.Violate("C17/import/machine-tick", fmt.Sprintf("generation %d: after Import MachineTick = %d, the exporting machine has %d (want one higher)", gen2, m3.MachineTick(), prev.MachineTick()), nil)
+			return
+		}
+		for _, n := range w.names {
+			if prev.Tick(n) != m3.Tick(n) {
+				res.Violate("C17/import/ticks", fmt.Sprintf("generation %d: after Import the tick of %s is %d, the exporting machine has %d", gen2, n, m3.Tick(n), prev.Tick(n)), nil)
+				return
+			}
+		}
+		m3.Toggle1(w.names[r.IntN(len(w.names))], nil)
+		prev = m3
+	}
 	res.Key("eximport", len(w.m.ActiveStates(nil)) > 0, w.m.MachineTick())
 }
